@@ -274,7 +274,7 @@ def replay_case(case):
 
 
 def main(ctx):
-    depth = 4 if ctx.quick else 5
+    depth = 4 if ctx.quick else 6
     cells = []
     lids = list(range(len(LINEUPS)))
     for init in (["Halton", "RandomUniform"], ["RandomUniform", "RandomUniform", "Halton"], ["RSequence"], ["Halton", "BestBatch"]):
